@@ -85,6 +85,7 @@ class Gen(object):
         if t.get('choice'): occ['xml_choice_group'] = t['choice']
         if 'default' in t: occ['default'] = t['default']
         if 'sub_name' in t: occ['sub_name'] = t['sub_name']
+        if t.get('exc'): occ['exc'] = True
         if occ and k != 'attr':
             c = c.customize(**occ)
         return c
